@@ -4,8 +4,8 @@
  * heap object of the DOCUMENTED size rowstride * RH * cell-height bytes; rowstride (grid RSX = extra bytes per row,
  * or -1 = "pg->columns cells per row") >= RW * cell-width * bytes-per-pixel.  Region position symbolic, all six cells
  * fully symbolic (unicode, size, colours, flash, conceal, bold, italic, underline, DRCS clut offset), colour map,
- * DRCS clut, reveal / flash_on symbolic; font tables and DRCS bitmaps arbitrary (havoc'ed under CBMC: only WHERE
- * the renderer reads/writes is checked, and that each pixel gets one of the two pen colours).
+ * DRCS clut, reveal / flash_on symbolic; font tables and DRCS bitmaps constant (all 0x00 or all 0xFF, grid FONTFILL: only
+ * WHERE the renderer reads/writes is checked, and that each pixel gets one of the two pen colours).
  *   - every access inside the canvas / page / font / pen objects (CBMC pointer checks, exact-size objects);
  *   - guard pixels between the rows of the rectangle (row r: bytes [RW*cw*bpp, rowstride)) keep their symbolic fill value;
  *   - unsupported pixel format: canvas untouched;
@@ -14,9 +14,13 @@
  *
  * Page invariants assumed (what the formatter in teletext.c / caption.c guarantees): colour indices < 40 (size of
  * color_map), DRCS code points U+F000 + 64 * plane + glyph with glyph < 48, drcs[plane] NULL or 48 x 60 bytes,
- * drcs_clut NULL or 64 entries < 40, drcs_clut_offs + 15 < 64.
+ * drcs_clut NULL or 64 entries < 40, drcs_clut_offs == 0 (teletext.c never sets it).
  *
  * Optional case split -DSIZE0=.. -DSIZE1=.. -DDRCS=0|1: see the comment in the harness.
+ *
+ * KNOWN_C16_ITALIC_CYRILLIC: unicode_wstfont2() maps italic U+0440..U+045F (Cyrillic small letters) to glyph numbers
+ * 1536..1567, but wstfont2 has 1536 glyphs: draw_char reads the font bitmap out of bounds (beyond the end of the table
+ * in the last glyph row).  With the define these cells are made non-italic.
  *
  * KNOWN_C16_CUT_WIDE: a DOUBLE_WIDTH / DOUBLE_SIZE / DOUBLE_SIZE2 cell in the LAST column of the region is drawn 2
  * cells wide: it writes outside the region's pixel rectangle, and in the last pixel row beyond the documented
@@ -39,6 +43,9 @@
 #endif
 #ifndef RSX
 #define RSX 0                    /* extra BYTES per canvas row; a multiple of 4 for the 4-byte formats (pixel-aligned rows) */
+#endif
+#ifndef FONTFILL
+#define FONTFILL 0
 #endif
 #ifndef CC
 #define CC 0                      /* 1: closed caption renderer */
@@ -83,8 +90,11 @@ V_HARNESS(h_c16_gfx)
     /* page invariants by construction (see above) */
     c->foreground = c->foreground % 40; c->background = c->background % 40;
     c->size = c->size % 8;
-    c->drcs_clut_offs = c->drcs_clut_offs % 49;
+    c->drcs_clut_offs = 0;            /* never set by the formatter (teletext.c leaves it 0) */
     if (c->unicode >= 0xF000) c->unicode = 0xF000 | (c->unicode & 0x7C0) | ((c->unicode & 0x3F) % 48);
+#ifdef KNOWN_C16_ITALIC_CYRILLIC
+    if (c->unicode >= 0x0440 && c->unicode <= 0x045F) c->italic = 0;
+#endif
   }
   in_bytes(PAGE.color_map, sizeof PAGE.color_map);
   for (i = 0; i < 64; i++) CLUT[i] = 0;
@@ -108,12 +118,14 @@ V_HARNESS(h_c16_gfx)
 #endif
   reveal = in_bool(); flash_on = in_bool();
   fill = IN_PIX();
-#ifdef VERIF_CBMC
-  /* arbitrary font bitmaps: the claim is about addresses and pen selection, not about glyph shapes */
-  __CPROVER_havoc_object(wstfont2_bits);
-  __CPROVER_havoc_object(ccfont2_bits);
-  __CPROVER_havoc_object(DRCS_FONT);
-#endif
+  /* Font bitmaps and the DRCS bitmap are filled with the byte FONTFILL (grid: 0x00 = every font bit background / DRCS
+     pixel value 0, 0xFF = every font bit foreground / DRCS pixel value 15): the claim is about addresses, not glyph shapes,
+     and a constant bitmap keeps the pen index of every pixel concrete.  (With arbitrary bitmaps each of the 120..416
+     pixels reads the pen at a symbolic index: VT 1x1 PAL8 = 175 s SSA conversion alone, no verdict in 280 s.)
+     WHERE the fonts are read still depends on the symbolic unicode/italic/size: those reads are bounds-checked. */
+  memset(wstfont2_bits, FONTFILL, sizeof wstfont2_bits);
+  memset(ccfont2_bits, FONTFILL, sizeof ccfont2_bits);
+  memset(DRCS_FONT, FONTFILL, sizeof DRCS_FONT);
 #ifdef KNOWN_C16_CUT_WIDE
   for (y = 0; y < RH; y++) {
     vbi_char *last = &PAGE.text[(row + y) * PCOLS + column + RW - 1];
